@@ -47,7 +47,9 @@ def ctc_tiffs_to_zarr(
         zarr_format (optional, Literal[2, 3]): The zarr specification to use when writing the zarr.
             Defaults to 2.
     """
-    array = imread(str(ctc_path / "*.tif"))
+    # Frames are read with tifffile, like `from_ctc_to_geff` reads them: the default reader
+    # of dask (skimage.io) takes a z-stack of 3 or 4 slices for an RGB(A) image (Y, X, C).
+    array = imread(str(ctc_path / "*.tif"), imread=tifffile.imread)
     if ctzyx:
         n_missing_dims = 5 - array.ndim  # (T, C, Z, Y, X)
         expand_dims = (slice(None),) + (np.newaxis,) * n_missing_dims
